@@ -134,7 +134,7 @@ def check_targets(x, lab, bad, backend, ordered=True, loose=False):
         lzc = lz
     else:
         lzc = lz.collect()
-    if lzc.schema != base.schema or not RS(lzc.rows(), base.rows()):
+    if (not loose and lzc.schema != base.schema) or not RS(lzc.rows(), base.rows()):
         bad.append(f"{lab}: Polars(lazy=True).collect() differs from Polars(): {lzc.schema} {lzc.rows()[:3]} vs {base.schema} {base.rows()[:3]}")
     # pandas
     try:
@@ -182,7 +182,7 @@ def check_targets(x, lab, bad, backend, ordered=True, loose=False):
             continue
         want = base[col.name]
         got, exp = ser.to_list(), want.to_list()
-        if ser.dtype != want.dtype or not RS([(v,) for v in got], [(v,) for v in exp]):
+        if (not loose and ser.dtype != want.dtype) or not RS([(v,) for v in got], [(v,) for v in exp]):  # under an unspecified slice other rows (e.g. only nulls) may be selected
             bad.append(f"{lab}: {col.name}.export(Polars()) = {ser.dtype} {got[:4]} differs from the frame column {want.dtype} {exp[:4]}")
         if ser.name != col.name:
             bad.append(f"{lab}: {col.name}.export(Polars()) is named {ser.name!r}")
@@ -203,7 +203,7 @@ def check_targets(x, lab, bad, backend, ordered=True, loose=False):
     try:
         col_ = x >> pdt.collect()
         b3 = col_ >> pdt.export(pdt.Polars())
-        if b3.schema != base.schema or not RS(b3.rows(), base.rows()) or [c.name for c in col_] != names:
+        if (not loose and b3.schema != base.schema) or not RS(b3.rows(), base.rows()) or [c.name for c in col_] != names:
             bad.append(f"{lab}: collect() >> export differs from export: {b3.schema} {b3.rows()[:3]} vs {base.schema} {base.rows()[:3]}")
     except (pdt.errors.SubqueryError, pdt.errors.NotSupportedError):
         pass
